@@ -16,6 +16,20 @@ Proof.
   constructor; simpl; try xfield X; xstep X.
 Qed.
 
+Lemma inv_trunc s m k : inv V0 s -> In m (appends s) -> inv V0 (do_trunc m k s).
+Proof.
+  intros [F X] Hm. split; [apply (facts_same V0 s); auto|].
+  constructor; simpl; try xfield X.
+  - intros m' [<-|Hm']; [simpl; exact (v_msg s X m Hm) | exact (v_msg s X m' Hm')].
+  - intros m' [<-|Hm']; [simpl | exact (m_ok s X m' Hm')].
+    destruct (m_ok s X m Hm) as [K [H1 [H2 [H3 [H4 H5]]]]].
+    exists K. repeat split; try assumption.
+    apply (prefix_trans _ (firstn (rprevIdx m) K ++ rents m)); [|exact H5].
+    destruct (firstn_prefix k (rents m)) as [Z HZ].
+    exists Z. rewrite <- app_assoc, <- HZ. reflexivity.
+  - intros m' [<-|Hm']; [simpl; exact (m_c s X m Hm) | exact (m_c s X m' Hm')].
+Qed.
+
 Lemma inv_crash s n c :
   inv V0 s -> dinv s -> (c <= commit (st s n))%nat -> inv V0 (do_crash n c s).
 Proof.
@@ -79,6 +93,8 @@ Proof. intro D. dframe D. Qed.
 Lemma dinv_send s l pi k c : dinv s -> dinv (do_send l pi k c s).
 Proof. intro D. dframe D. Qed.
 Lemma dinv_ack s l v i : dinv s -> dinv (do_ack l v i s).
+Proof. intro D. dframe D. Qed.
+Lemma dinv_trunc s m k : dinv s -> dinv (do_trunc m k s).
 Proof. intro D. dframe D. Qed.
 
 Lemma dinv_flush s n k :
